@@ -1,6 +1,8 @@
 package main
 
 import (
+	"strings"
+
 	"hmsverif/internal/hs"
 )
 
@@ -18,6 +20,11 @@ func c11Oracle(pc progCase, r *Result) {
 		return
 	}
 	ref := hs.Eval(pc.Prog, &pc.P, refBudget)
+	for _, t := range pc.Tags {
+		if strings.HasPrefix(t, "unspec:") {
+			ref.Unspec = t[7:]
+		}
+	}
 	if ref.Unspec != "" {
 		r.Note("unspecified:"+ref.Unspec, 1)
 		return
